@@ -970,7 +970,7 @@ def check_order(v, tier, d):
             sel = [k, "COUNT(%s) AS ?n" % x]
             outnames = [k, "?n"]
             group = [k]
-        elif len(names) >= 3 and g.rng.random() < 0.15:
+        elif len(names) >= 3 and g.rng.random() < 0.22:
             # two grouping keys, listed in SELECT in another order than in GROUP BY (the reduce step sorts by one of
             # the two lists, ORDER BY must sort by its own)
             k1, k2, x = g.rng.sample(names, 3)
@@ -986,9 +986,11 @@ def check_order(v, tier, d):
         order = []
         for _k in range(nkeys):
             order.append((g.rng.choice(outnames), g.rng.random() < 0.4))
-        if grouped2 and g.rng.random() < 0.6:
-            # ORDER BY a prefix of the GROUP BY list, mostly ascending
-            order = [(x, g.rng.random() < 0.15) for x in group[:g.rng.choice([1, 2, 2])]]
+        if grouped2 and g.rng.random() < 0.75:
+            # ORDER BY a prefix of the GROUP BY list, or of the grouping keys in the order SELECT shows them (the two lists
+            # differ half of the time), mostly ascending
+            keyseq = group if g.rng.random() < 0.5 else [x for x in outnames if x in group]
+            order = [(x, g.rng.random() < 0.15) for x in keyseq[:g.rng.choice([1, 2, 2])]]
         # consistent directions for repeated keys (the parser rejects contradictions)
         seen = {}
         order = [(x, seen.setdefault(x, dsc)) for x, dsc in order]
